@@ -30,9 +30,10 @@ def oracle(case, replies):
         op = line.split()[0]
         if op == "g":
             spec, smart = ll.dec_g(line)
-            g, start = ll.user_grammar(spec), spec["start"]
+            g, start = ll.user_grammar(spec), ll.start_of(spec)
             check = ll.clean(spec) and not ll.left_rec(g)
-            ll1 = check and ll.is_ll1(g, start)
+            # a key without alternatives derives nothing; 'LL(1) as written' is about grammars whose symbols have rules
+            ll1 = check and all(len(v) > 0 for v in g.values()) and ll.is_ll1(g, start)
             unamb = rep == "ok amb=0"
             if ll1 and rep != "ok amb=0":
                 return "ll1-reported-ambiguous: predict sets of all alternatives are pairwise disjoint, constructor says %r (smart=%s)" % (rep, smart)
@@ -66,6 +67,10 @@ def gen_cases(rng, tier):
         yield from ll.tiny_grammars(rng, limit=20000)
 
 
+def corpus():
+    return [ll.follow_witness_case()]
+
+
 def search_cases(rng, tier):
     yield from ll.tiny_grammars(rng, limit=None if tier == "thorough" else 30000)
 
@@ -81,7 +86,7 @@ def tags(case, replies):
     if ll.clean(spec):
         g = ll.user_grammar(spec)
         if not ll.left_rec(g):
-            yield "ll1-as-written:%s" % ll.is_ll1(g, spec["start"])
+            yield "ll1-as-written:%s" % ll.is_ll1(g, ll.start_of(spec))
 
 
 shrink = ll.shrink
